@@ -3,18 +3,18 @@ axis (Kenamond 2, 3, DSD) and under every isometry incl. translations (Kenamond 
 from obligations import obl
 from harness import o_burn as B
 
-_M, _T = 'EPV.Props.C09.Burn', 'EPV.C09.'
+_M, _T = 'EPV.Props.C09.Burn', 'EPV.C09.'      # one module per solver: _M + 'K1' | 'K2' | 'K3' | 'DSD'
 _o = [
-    obl('C09.burn.k1', _M, [_T + n for n in ('k1d2_isometry', 'k1d3_isometry', 'k1d2_translation', 'k1d3_translation',
+    obl('C09.burn.k1', _M + 'K1', [_T + n for n in ('k1d2_isometry', 'k1d3_isometry', 'k1d2_translation', 'k1d3_translation',
                                              'k1d2_rotation', 'k1d2_reflection', 'k1d3_rotation_z')],
         ['K1d2', 'K1d3'], B.symmetry['k1']),
-    obl('C09.burn.k2', _M, [_T + n for n in ('k2d2_axis_isometry', 'k2d3_axis_isometry', 'k2d2_reflection',
+    obl('C09.burn.k2', _M + 'K2', [_T + n for n in ('k2d2_axis_isometry', 'k2d3_axis_isometry', 'k2d2_reflection',
                                              'k2d3_rotation_z', 'k2d3_reflection', 'k2d2_axis_flip', 'k2d3_axis_flip')],
         ['K2d2', 'K2d3'], B.symmetry['k2']),
-    obl('C09.burn.k3', _M, [_T + n for n in ('k3d2_linearIsometry', 'k3d3_linearIsometry', 'k3d2_rotation',
+    obl('C09.burn.k3', _M + 'K3', [_T + n for n in ('k3d2_linearIsometry', 'k3d3_linearIsometry', 'k3d2_rotation',
                                              'k3d2_reflection', 'k3d3_rotation_z')],
         ['K3d2', 'K3d3'], B.symmetry['k3']),
-    obl('C09.burn.dsd', _M, [_T + n for n in ('dsdcyl_norm_invariant', 'dsdcyl_linearIsometry', 'dsdcyl_rotation',
+    obl('C09.burn.dsd', _M + 'DSD', [_T + n for n in ('dsdcyl_norm_invariant', 'dsdcyl_linearIsometry', 'dsdcyl_rotation',
                                               'dsdcyl_reflection')], ['DSDCyl'], B.symmetry['dsd']),
 ]
 PROP = dict(
